@@ -133,8 +133,10 @@ def gen_instance(rng, maxn=6, maxT=5, G=3, family=None, p_linked=0.25):
 
 
 def gen_config(rng, allow=('ne', 'W', 'nodes', 'cuts', 'goback'), cls=None):
-    cls = cls or rng.choice(['simple', 'distance'])
-    only_edges = True if (cls == 'distance' or 'nodes' not in allow) else rng.random() < 0.6
+    # the three matcher families of the library; Newson-Krumm (exponential transition term, 1 - CDF emission term) shares
+    # the search of the base class, so every table-free clause applies to it unchanged
+    cls = cls or rng.choice(['simple', 'distance', 'simple', 'distance', 'newsonkrumm'])
+    only_edges = True if (cls in ('distance', 'newsonkrumm') or 'nodes' not in allow) else rng.random() < 0.6
     if 'cuts' in allow and rng.random() < 0.45:
         allow = tuple(a for a in allow if a != 'cuts')      # about half of the configurations have no cut-off at all
     noise = rng.choice([0.5, 1.0, 2.0, 0.5, 1.0, 2.0, 5.0, 25.0, 0.3])
@@ -150,10 +152,14 @@ def gen_config(rng, allow=('ne', 'W', 'nodes', 'cuts', 'goback'), cls=None):
           'ne': ('ne' in allow and rng.random() < 0.5), 'only_edges': only_edges,
           'avoid_goingback': ('goback' in allow and rng.random() < 0.5),
           'W': (rng.choice([0, 0, 1, 2, 3]) if 'W' in allow else 0),
-          'dist_noise': rng.choice([None, 0.5, 2.0]) if cls == 'distance' else None,
-          'dist_noise_ne': rng.choice([None, None, 1.0, 3.0]) if cls == 'distance' else None,
+          'dist_noise': rng.choice([None, 0.5, 2.0]) if cls != 'simple' else None,          # Newson-Krumm: beta
+          'dist_noise_ne': rng.choice([None, None, 1.0, 3.0]) if cls != 'simple' else None,  # Newson-Krumm: beta_ne
           'restrained_ne': (rng.random() < 0.7) if cls == 'distance' else None,
           'ne_max': None}        # non_emitting_states_maxnb (None: the library's default of 100); set by the callers
+    if cls == 'newsonkrumm':
+        cf['avoid_goingback'] = False        # the family has no going-back term
+        if cf['dist_noise'] is None:
+            cf['dist_noise'] = 0.25          # an exactly representable stand-in for the default beta = 1/6
     return cf
 
 
@@ -256,7 +262,13 @@ def build_matcher(mp, cf, conc):
               max_lattice_width=(cf['W'] or None))
     if cf.get('obs_noise_ne') is not None:
         kw['obs_noise_ne'] = conc.dscale(cf['obs_noise_ne'])
-    if cf['cls'] == 'distance':
+    if cf['cls'] == 'newsonkrumm':
+        from leuvenmapmatching.matcher.newsonkrumm import NewsonKrummMatcher
+        kw['beta'] = conc.dscale(cf['dist_noise'])
+        if cf.get('dist_noise_ne') is not None:
+            kw['beta_ne'] = conc.dscale(cf['dist_noise_ne'])
+        m = NewsonKrummMatcher(mp, **kw)
+    elif cf['cls'] == 'distance':
         if cf.get('dist_noise') is not None:
             kw['dist_noise'] = conc.dscale(cf['dist_noise'])
         if cf.get('dist_noise_ne') is not None:
@@ -437,6 +449,12 @@ def frac2(x):
     return [f.numerator, f.denominator]
 
 
+def frac1(x):
+    from fractions import Fraction
+    f = Fraction(str(x))
+    return [f.numerator, f.denominator]
+
+
 def _d(p, q):
     return math.hypot(p[0] - q[0], p[1] - q[1])
 
@@ -497,6 +515,7 @@ def model_record(tid, inst, cf, ops=None, k=0):
     dnne = cf.get('dist_noise_ne') if cf.get('dist_noise_ne') is not None else dn
     rec = {'tid': tid, 'cls': cf['cls'], 'goback': bool(cf['avoid_goingback']), 'sig2': frac2(cf['obs_noise']),
            'sig2ne': frac2(one), 'beta2': frac2(dn), 'beta2ne': frac2(dnne),
+           'nkbeta': frac1(dn), 'nkbetane': frac1(dnne),          # Newson-Krumm: beta, beta_ne as rationals
            'coord4': coord4, 'obs4': [[int(round(4 * p[0])), int(round(4 * p[1]))] for p in inst['path']],
            'fresh': all(o[0] == 'match' for o in (ops or [('match', T)])), 'entries': entries, 'path': path,
            'partial': sum(common.partial_replacements(m).values())}
